@@ -49,7 +49,7 @@ CHECKS["C02"] = {
 CHECKS["C18"] = {
     "engine": "E1 lattice explorer",
     "jobs": lambda tier: per_dim("C18.cpp", "C18", tier, quick=(1,), thorough=(1, 3)),
-    "rule": "unit = (order, ratio r, alphabet, N, duration word); durations {1/sqrt r, sqrt r} (all 2^N placements) and {1/sqrt r, 1, sqrt r} (all 3^N); every unit computes, in long double from the published coefficients, the scaled residual of every defining equation (interpolation, boundary state k, continuity of derivative k) for the full data basis + generic data; non-trivial = the word contains both the shortest and the longest letter (ratio actually attained)",
+    "rule": "unit = (order, ratio r, alphabet, N, duration word); durations {1/sqrt r, sqrt r} (all 2^N placements) and {1/sqrt r, 1, sqrt r} (all 3^N); every unit computes, in long double from the published coefficients, the scaled residual of every defining equation (interpolation, boundary state k, continuity of derivative k) for the full data basis + generic data + the generic data in a frame far from the origin (offsets 482113 / 4431207); non-trivial = the word contains both the shortest and the longest letter (ratio actually attained)",
     "bounds": {"quick": "3 orders x DIM 1 x r in {2,4,8,16,32,50,64,100} x (N 2..8 all 2^N words + N 2..4 all 3^N words at scale 1; N 2..7 two-letter words at scales 2^-6, 2^6, 2^10) x full data basis",
                "thorough": "3 orders x DIM {1,3} x r in {2,4,8,16,32,50,64,100} x (N 2..12 all 2^N words + N 2..7 all 3^N words at scale 1; N 2..7 two-letter words at scales 2^-6, 2^6, 2^10) x full data basis"},
     "thresholds": {"scaled residual (the property's own)": 1e-3},
